@@ -40,7 +40,11 @@ def getter_kinds(m):
                 names.append(p[2].value)
         if len(names) != 1:
             continue
+        from ..dataflow import resolve
         v = s.value
+        rv_, rn_ = resolve(rd, pn, v)
+        if not isinstance(rv_, (ast.Name, ast.List)) and not (isinstance(rv_, ast.Call) and call_name(rv_) in ('list',)):
+            v = rv_        # a plain copy of a non-container expression; containers filled by appends are handled below under their name
         kind = 'other'
         if isinstance(v, ast.Constant) and v.value is None:
             kind = 'none'
